@@ -14,7 +14,7 @@ use std::collections::{BTreeSet, HashMap};
 pub static INFO: PropInfo = PropInfo {
     id: "C15",
     level: "exploration",
-    rule: "one evaluation = one simulated lossy session (as C01) with tick lengths shorter than / equal to / 2.5x / irregular relative to resend_time (0, 10, 100, 300 ms), budgets from 1200 B/tick up, ack delays from 0 to > 3 s. The monitor decodes every packet of every get_packets_to_send call with the crate's decoder and keeps a shadow table item -> (last transmission time, acknowledged?) and packet sequence -> (items carried, sent at); acknowledgements are taken from the Ack packets the harness actually delivered to the sender. Refuted by: (a) two transmissions of one (channel, message id[, slice]) closer than resend_time; (b) an item that was sent before, is still unacknowledged by any delivered ack (and whose message the hook still lists as unacknowledged), is due (now - last_sent >= resend_time) and absent from a call although the budget left after the whole call is >= its size (message length, or 1200 for a slice); (c) a transmission of an item after an Ack naming a packet that carried it, sent < 3 s before, was processed. Non-trivial = at least one retransmission and one ack-after-loss occurred; distinct = distinct event-log fingerprints.",
+    rule: "one evaluation = one simulated lossy session (as C01) with tick lengths shorter than / equal to / 2.5x / irregular relative to resend_time (0, 10, 100, 300 ms), budgets from 1200 B/tick up, ack delays from 0 to > 3 s. The monitor decodes every packet of every get_packets_to_send call with the crate's decoder and keeps a shadow table item -> (last transmission time, acknowledged?) and packet sequence -> (items carried, sent at); acknowledgements are taken from the Ack packets the harness actually delivered to the sender. Refuted by: (a) two transmissions of one (channel, message id[, slice]) closer than resend_time; (b) an item that was sent before, is still unacknowledged by any delivered ack is due (now - last_sent >= resend_time) and absent from a call although the budget left after the whole call is >= its size (message length, or 1200 for a slice); (c) a transmission of an item after an Ack naming a packet that carried it, sent < 3 s before, was processed. Non-trivial = at least one retransmission and one ack-after-loss occurred; distinct = distinct event-log fingerprints.",
     assumptions: &[
         "virtual time: all endpoints are advanced by the same dt at the start of a tick, so the sender's clock equals the simulator clock",
         "promptness is asserted only against the budget left after the whole call (weakest necessary condition)",
@@ -165,9 +165,12 @@ impl Monitor for ResendOracle {
                     if now - last < resend {
                         continue;
                     }
+                    // "unacknowledged" is decided by the shadow table alone (no delivered Ack ever named a
+                    // packet carrying the item). If the sender has nevertheless dropped the message (hook),
+                    // it will never retransmit it: that is exactly what this clause forbids.
                     let ua = unacked_cache.entry(it.0).or_insert_with(|| sender.verif_unacked(it.0).unwrap_or_default().into_iter().collect());
                     if !ua.contains(&it.1) {
-                        continue; // the sender released the message (C08 decides whether rightly)
+                        out.count("due_item_of_message_the_sender_dropped");
                     }
                     out.count("promptness_checked");
                     if remaining >= s.size {
